@@ -170,6 +170,39 @@ def sensitivity(argv):
     return 0 if not missed and not flaky else 1
 
 
+def refactors(argv):
+    """Behaviour-preserving refactorings (/verif/refactors/*.patch): every quick check must stay green."""
+    only = argv[0] if argv else None
+    results = []
+    t0 = time.time()
+    for patch in sorted(glob.glob(os.path.join(HERE, "refactors", "*.patch"))):
+        name = os.path.basename(patch)
+        if only and only not in name:
+            continue
+        scratch = tempfile.mkdtemp(prefix="verif-ref-", dir="/dev/shm" if os.path.isdir("/dev/shm") else None)
+        try:
+            _apply_patch_copy(patch, scratch)
+            env = dict(os.environ)
+            env["VERIF_REPO"] = scratch
+            for prop in ("C09", "C10", "C11"):
+                cmd = [os.path.join(HERE, "check"), prop, "--tier", "quick"]
+                if os.environ.get("VERIF_SENS_RUNS"):
+                    cmd += ["--runs", os.environ["VERIF_SENS_RUNS"]]
+                p = subprocess.run(cmd, env=env, stdout=subprocess.PIPE, stderr=subprocess.PIPE, cwd=HERE, timeout=3600)
+                out = p.stdout.decode()
+                bad = [l for l in out.splitlines() if l.startswith("VIOLATION") or l.startswith("HARNESS-ERROR") or l.startswith("  signature=")]
+                results.append({"refactor": name, "property": prop, "exit": p.returncode, "lines": bad[:3]})
+                print(json.dumps(results[-1])[:400])
+                sys.stdout.flush()
+        finally:
+            shutil.rmtree(scratch, ignore_errors=True)
+    alarms = [r for r in results if r["exit"] != 0]
+    print(f"refactors: {len(results)} (patch, property) runs, {len(alarms)} alarms, {time.time() - t0:.0f}s")
+    with open(os.path.join(HERE, "evidence", "refactors.json"), "w") as f:
+        json.dump({"results": results}, f, indent=1)
+    return 0 if not alarms else 1
+
+
 def main(argv):
     if not argv:
         print("selftest determinism [n] | sensitivity [name-filter]")
@@ -178,4 +211,6 @@ def main(argv):
         return determinism(argv[1:])
     if argv[0] == "sensitivity":
         return sensitivity(argv[1:])
+    if argv[0] == "refactors":
+        return refactors(argv[1:])
     return 2
